@@ -370,6 +370,72 @@ def requestRots (table : List (String × Rot × Option String)) (bl br : Option 
 (X1, Y, X2 local, then X1, Y, X2 remote); an unwritten slot reads as 0 at the controller -/
 def serRots (l r : Rot) : List Nat := [l.1, l.2.1, l.2.2, r.1, r.2.1, r.2.2]
 
+/-! ### successive requests on one EPR socket -/
+
+/-- one call of an `EPRSocket` request method, as the application writes it -/
+structure Request where
+  entry : String        -- "create_keep" | "create_keep_with_info" | "create_measure" | "create_rsp" |
+                        -- "recv_keep" | "recv_keep_with_info" | "recv_measure" | "recv_rsp" | "recv_rsp_with_info"
+  number : Nat
+  expect : Bool         -- `expect_phi_plus` (receiving forms only)
+  post : Bool           -- a post routine is given (keep forms only)
+  sequential : Bool
+  bl : Option String    -- basis_local / basis_remote by name (create_measure, create_rsp)
+  br : Option String
+  rl : Rot              -- rotations_local / rotations_remote
+  rr : Rot
+  deriving Repr
+
+/-- what the builder is handed for that call (`EntRequestParams`, the fields C10 depends on) and the
+`post_process` flag of measure-directly result objects -/
+structure Params where
+  number : Nat
+  expect : Bool
+  post : Bool
+  sequential : Bool
+  rotL : Rot
+  rotR : Rot
+  postProcess : Bool
+  deriving DecidableEq, Repr
+
+def Request.isRecv (r : Request) : Bool := r.entry.startsWith "recv"
+def Request.isKeep (r : Request) : Bool :=
+  r.entry == "create_keep" || r.entry == "create_keep_with_info" || r.entry == "recv_keep" ||
+    r.entry == "recv_keep_with_info"
+
+/-- the parameters of a call are a function of THAT call's arguments: `expect_phi_plus` is the argument for
+receiving forms and the dataclass default `True` otherwise; rotations are `requestRots` of the call's own
+bases for `create_measure`, the local basis for `create_rsp`, the default (0,0,0) for every other form
+(in particular `recv_measure`, which therefore post-processes with the Z rule); post routine / sequential
+only for the keep forms -/
+def paramsOf (table : List (String × Rot × Option String)) (r : Request) : Option Params :=
+  let expect := if r.isRecv then r.expect else true
+  let post := r.isKeep && r.post
+  let seq := r.isKeep && r.sequential
+  if r.entry == "create_measure" then
+    match requestRots table r.bl r.br r.rl r.rr with
+    | some (l, rr) => some ⟨r.number, expect, post, seq, l, rr, false⟩
+    | none => none
+  else if r.entry == "create_rsp" then
+    match resolveRot table r.bl r.rl with
+    | some l => some ⟨r.number, expect, post, seq, l, (0, 0, 0), false⟩
+    | none => none
+  else
+    some ⟨r.number, expect, post, seq, (0, 0, 0), (0, 0, 0), r.entry == "recv_measure" && r.expect⟩
+
+/-- the model of the socket object between calls: it only counts the requests it served -/
+structure Sock where
+  served : Nat
+  deriving Repr
+
+def Sock.request (table : List (String × Rot × Option String)) (s : Sock) (r : Request) :
+    Sock × Option Params := (⟨s.served + 1⟩, paramsOf table r)
+
+/-- a history of requests on one socket object -/
+def runSocket (table : List (String × Rot × Option String)) : Sock → List Request → List (Option Params)
+  | _, [] => []
+  | s, r :: rs => (s.request table r).2 :: runSocket table (s.request table r).1 rs
+
 /-! ### small-step semantics of the command subset -/
 
 inductive Ev
